@@ -377,4 +377,41 @@ func genDiff(g *fact.Gen) {
 	}
 	emitExpr(g, "pickCond", "li k ji lastj", "Bool", pick, map[string]string{"L[i]": "li", "k": "k", "J[i]": "ji", "lastj": "lastj"},
 		"(decide (li = k) && decide (ji < lastj))", "back-scan test not found")
+	// ---- the consumer: testscript/cmd.go doCmdCmp must diff the two texts it compared
+	g.Emit("/-! facts read from testscript/cmd.go: method (*TestScript).doCmdCmp -/\n")
+	g.EmitBool("cmpDiffsComparedTexts", "doCmdCmp compares `eq := A == B` and logs `diff.Diff(name1, []byte(A), name2, []byte(B))` with the same A, B (and `name1, name2 := args[0], args[1]`); B is the text after `ts.expand` when env is set.", true, func() (bool, bool, string) {
+		const crel = "testscript/cmd.go"
+		fd := g.Method(crel, "TestScript", "doCmdCmp")
+		if fd == nil {
+			return false, false, "method doCmdCmp not found"
+		}
+		var a, b string
+		for _, as := range findAll(ast.Node(fd.Body), func(x *ast.AssignStmt) bool { return len(x.Lhs) == 1 && g.Src(x.Lhs[0]) == "eq" && len(x.Rhs) == 1 }) {
+			if be, ok := as.Rhs[0].(*ast.BinaryExpr); ok && be.Op == token.EQL {
+				a, b = g.Src(be.X), g.Src(be.Y)
+			}
+		}
+		if a == "" || b == "" {
+			return false, false, "`eq := A == B` not found in doCmdCmp"
+		}
+		calls := findAll(ast.Node(fd.Body), func(c *ast.CallExpr) bool { return g.Src(c.Fun) == "diff.Diff" })
+		if len(calls) != 1 || len(calls[0].Args) != 4 {
+			return false, false, "exactly one diff.Diff call with four arguments expected in doCmdCmp"
+		}
+		names := false
+		for _, as := range findAll(ast.Node(fd.Body), func(x *ast.AssignStmt) bool { return g.Src(x) == "name1,name2:=args[0],args[1]" }) {
+			_ = as
+			names = true
+		}
+		expands := false
+		for _, is := range findAll(ast.Node(fd.Body), func(x *ast.IfStmt) bool { return g.Src(x.Cond) == "env" }) {
+			if g.Src(is.Body) == "{"+b+"=ts.expand("+b+")}" {
+				expands = true
+			}
+		}
+		c := calls[0]
+		ok := names && expands && g.Src(c.Args[0]) == "name1" && g.Src(c.Args[2]) == "name2" &&
+			g.Src(c.Args[1]) == "[]byte("+a+")" && g.Src(c.Args[3]) == "[]byte("+b+")"
+		return ok, true, ""
+	})
 }
